@@ -19,7 +19,12 @@ use tokio::task::JoinError;
 use tokio::time::{Duration, timeout};
 
 type PendingSender = oneshot::Sender<Result<Message, RepeError>>;
-type PendingRequests = HashMap<u64, PendingSender>;
+/// Pending map: request id -> (registration token, reply channel). The token
+/// tells a call's cleanup guard whether the entry under its id is still its own:
+/// with caller-supplied ids (`forward_message`) an id can be registered again
+/// after the reader has taken the first entry out, and the first call's guard
+/// must not delete the second call's entry.
+type PendingRequests = HashMap<u64, (u64, PendingSender)>;
 
 #[derive(Clone)]
 pub struct AsyncClient {
@@ -30,6 +35,7 @@ struct AsyncClientInner {
     writer: Mutex<BufWriter<OwnedWriteHalf>>,
     pending: StdMutex<PendingRequests>,
     next_id: AtomicU64,
+    next_registration: AtomicU64,
     shutdown: StdMutex<Option<oneshot::Sender<()>>>,
     /// Set when a request write was interrupted part-way (its future dropped
     /// or a write failed): the stream may hold a torn frame, so nothing more
@@ -69,7 +75,7 @@ impl Drop for FrameWriteGuard<'_> {
             let mut pending = lock_pending_map(&self.inner.pending);
             pending.drain().collect::<Vec<_>>()
         };
-        for (request_id, sender) in waiters {
+        for (request_id, (_, sender)) in waiters {
             let _ = sender.send(Err(torn_write_error(request_id)));
         }
     }
@@ -105,6 +111,7 @@ enum PendingDispatch {
 struct PendingRequestGuard {
     inner: Arc<AsyncClientInner>,
     request_id: u64,
+    token: u64,
     disarmed: bool,
 }
 
@@ -114,17 +121,19 @@ impl PendingRequestGuard {
         request_id: u64,
         sender: PendingSender,
     ) -> Result<Self, RepeError> {
+        let token = inner.next_registration.fetch_add(1, Ordering::Relaxed);
         {
             let mut pending = lock_pending_map(&inner.pending);
             if pending.contains_key(&request_id) {
                 return Err(duplicate_request_id_error(request_id));
             }
-            pending.insert(request_id, sender);
+            pending.insert(request_id, (token, sender));
         }
 
         Ok(Self {
             inner: Arc::clone(inner),
             request_id,
+            token,
             disarmed: false,
         })
     }
@@ -141,7 +150,13 @@ impl Drop for PendingRequestGuard {
         }
 
         let mut pending = lock_pending_map(&self.inner.pending);
-        pending.remove(&self.request_id);
+        // Remove the entry only if it is still this call's own registration.
+        if pending
+            .get(&self.request_id)
+            .is_some_and(|(token, _)| *token == self.token)
+        {
+            pending.remove(&self.request_id);
+        }
     }
 }
 
@@ -155,6 +170,7 @@ impl AsyncClient {
             writer: Mutex::new(BufWriter::new(write_half)),
             pending: StdMutex::new(HashMap::new()),
             next_id: AtomicU64::new(1),
+            next_registration: AtomicU64::new(0),
             shutdown: StdMutex::new(Some(shutdown_tx)),
             write_broken: std::sync::atomic::AtomicBool::new(false),
             failed: tokio::sync::Notify::new(),
@@ -922,7 +938,7 @@ fn spawn_response_loop(
                 let response_id = response.header.id;
                 let matched_sender = {
                     let mut pending = lock_pending_map(&inner_ref.pending);
-                    pending.remove(&response_id)
+                    pending.remove(&response_id).map(|(_, sender)| sender)
                 };
 
                 if let Some(sender) = matched_sender {
@@ -967,7 +983,7 @@ async fn fail_all_pending(inner: &std::sync::Weak<AsyncClientInner>, err: RepeEr
         pending.drain().collect::<Vec<_>>()
     };
 
-    for (request_id, sender) in waiters {
+    for (request_id, (_, sender)) in waiters {
         let _ = sender.send(Err(clone_fatal_error_for_waiter(&err, request_id)));
     }
 
